@@ -770,6 +770,11 @@ func (p c16) Run(par *fw.Parent) *fw.Result {
 		}
 		o := pr.out
 		merged.Evals += int64(o.Calls)
+		for _, dg := range o.Digests {
+			if dg == "rejected" {
+				merged.Extra["distinct_rejected_requests_in_concurrent_runs"]++
+			}
+		}
 		if !d.Sink {
 			cover("grid(goroutines x GOMAXPROCS)", fmt.Sprintf("%dx%d", d.Goroutines, d.Procs))
 			cover("cold_start_focus", d.Focus)
